@@ -15,6 +15,9 @@ pub enum SmbReq {
         mid: u16,
         /// number of dialects offered (negotiate)
         ndialects: usize,
+        /// positions of the dialect strings the responder is documented to speak
+        /// ("NT LM 0.12", "SMB 2.???", "SMB 2.002") in the offered list
+        known_at: Vec<usize>,
     },
     Smb2 {
         command: u16,
@@ -74,6 +77,7 @@ pub fn verdict(p: Proto, m: &[u8], _ctx: &AppCtx) -> AppVerdict {
                 uid: le16(body, 28),
                 mid: le16(body, 30),
                 ndialects: 0,
+                known_at: vec![],
             };
             let p = &body[32..];
             if command == 0x72 {
@@ -93,6 +97,7 @@ pub fn verdict(p: Proto, m: &[u8], _ctx: &AppCtx) -> AppVerdict {
                 // parse dialects
                 let mut n = 0;
                 let mut i = 0;
+                let mut known_at: Vec<usize> = Vec::new();
                 while i < d.len() {
                     if d[i] != 0x02 {
                         return AppVerdict::Unspecified("smb1-dialect-buffer-format".into());
@@ -101,6 +106,10 @@ pub fn verdict(p: Proto, m: &[u8], _ctx: &AppCtx) -> AppVerdict {
                     match z {
                         None => return AppVerdict::Unspecified("smb1-dialect-unterminated".into()),
                         Some(z) => {
+                            let name = &d[i + 1..i + 1 + z];
+                            if name == b"NT LM 0.12" || name == b"SMB 2.???" || name == b"SMB 2.002" {
+                                known_at.push(n);
+                            }
                             i += 1 + z + 1;
                             n += 1;
                         }
@@ -115,6 +124,7 @@ pub fn verdict(p: Proto, m: &[u8], _ctx: &AppCtx) -> AppVerdict {
                         uid,
                         mid,
                         ndialects: n,
+                        known_at,
                     }));
                 }
                 unreachable!()
@@ -219,7 +229,7 @@ pub fn validate(req: &SmbReq, r: &[u8], _ctx: &AppCtx) -> Result<(), VErr> {
     }
     let b = &r[4..];
     match req {
-        SmbReq::Smb1 { command, pid_high, tid, pid_low, uid, mid, ndialects } => {
+        SmbReq::Smb1 { command, pid_high, tid, pid_low, uid, mid, ndialects, known_at } => {
             if b.len() < 32 + 3 || &b[0..4] != b"\xffSMB" {
                 return e("smb1-magic", "SMB1 reply header missing".into());
             }
@@ -256,6 +266,13 @@ pub fn validate(req: &SmbReq, r: &[u8], _ctx: &AppCtx) -> Result<(), VErr> {
                     return e(
                         "smb1-dialect-index",
                         format!("selected dialect index {} but the client offered {}", idx, ndialects),
+                    );
+                }
+                // a responder cannot select a dialect it does not speak while one it speaks is offered
+                if !known_at.is_empty() && !known_at.contains(&idx) {
+                    return e(
+                        "smb1-dialect-index",
+                        format!("selected dialect index {} is not one of the offered dialects the responder speaks (at {:?})", idx, known_at),
                     );
                 }
                 let caps = le32(p, 1 + 19);
